@@ -1095,8 +1095,8 @@ impl BRC20ProgEngine {
 }
 
 fn generate_block_hash(block_number: u64) -> B256 {
-    // +1 to avoid zero hash
-    let bytes = (block_number + 1).to_be_bytes();
+    // +1 to avoid zero hash (no block has number u64::MAX, but a request can name it)
+    let bytes = block_number.wrapping_add(1).to_be_bytes();
     let full_bytes = [0u8; 24]
         .iter()
         .chain(bytes.iter())
